@@ -220,7 +220,7 @@ def disable_while_peer_connects_round():
     object's is_alive(); everything else is the real TcpServerConnection on a loopback socket.)  disable() must return."""
     import secsgem.common.tcp_connection
     secsgem.common.tcp_connection.TcpConnection.select_timeout = 0.02
-    port = common.free_port()
+    port = common.own_port(9)
     settings = secsgem.hsms.HsmsSettings(address="127.0.0.1", port=port, connect_mode=secsgem.hsms.HsmsConnectMode.PASSIVE, device_id=0)
     proto = secsgem.hsms.HsmsProtocol(settings)
     conn = proto._connection
@@ -258,6 +258,53 @@ def disable_while_peer_connects_round():
     obs["not_connected"] = proto.connection_state.current.value == 0
     if state.get("client"):
         state["client"].close()
+    return obs
+
+
+def disable_while_connect_succeeds_round():
+    """The same moment on an ACTIVE endpoint: nobody listens, the connect thread retries; disable() sees the thread alive, the peer
+    starts listening, the next attempt succeeds and the thread ends, then disable() asks it to stop.  disable() must return."""
+    import secsgem.common.tcp_connection
+    secsgem.common.tcp_connection.TcpConnection.select_timeout = 0.02
+    port = common.own_port(9)
+    settings = secsgem.hsms.HsmsSettings(address="127.0.0.1", port=port, connect_mode=secsgem.hsms.HsmsConnectMode.ACTIVE, device_id=0)
+    settings.timeouts.t5 = 1
+    proto = secsgem.hsms.HsmsProtocol(settings)
+    conn = proto._connection
+    obs = {}
+    proto.enable()
+    time.sleep(0.3)
+    real_thread = conn.connection_thread
+    state = {}
+
+    class Racy:
+        def is_alive(self):
+            if "listener" in state:
+                return real_thread.is_alive()
+            lst = socket.socket()
+            lst.setsockopt(socket.SOL_SOCKET, socket.SO_REUSEADDR, 1)
+            try:
+                lst.bind(("127.0.0.1", port))
+                lst.listen(1)
+            except OSError as exc:
+                state["error"] = repr(exc)
+            state["listener"] = lst            # the peer starts listening right after the check ...
+            real_thread.join(5)                # ... the connect thread's next attempt succeeds and the thread ends
+            return True
+
+        def __getattr__(self, name):
+            return getattr(real_thread, name)
+
+    conn.connection_thread = Racy()
+    try:
+        common.with_deadline(proto.disable, 12.0)
+        obs["disable_returned"] = True
+    except common.Wedged:
+        obs["disable_returned"] = False
+    obs["connected_in_between"] = not real_thread.is_alive()
+    obs["not_connected"] = proto.connection_state.current.value == 0
+    if state.get("listener"):
+        state["listener"].close()
     return obs
 
 
@@ -464,6 +511,9 @@ def run(tier, replay=None):
     race_obs = common.guarded(disable_while_peer_connects_round, "disable() while a peer connects (listener thread ends between disable()'s check and its stop request)", awedged, 60.0)
     if race_obs is not None and not (race_obs["disable_returned"] and race_obs["not_connected"]):
         report.violation({"kind": "counterexample", "what": "disable() did not return / the endpoint did not end NOT CONNECTED when a peer connected while it was being disabled", **race_obs}, True, tag="disablerace")
+    race2_obs = common.guarded(disable_while_connect_succeeds_round, "disable() while the active endpoint's connection attempt succeeds", awedged, 60.0)
+    if race2_obs is not None and not (race2_obs["disable_returned"] and race2_obs["not_connected"]):
+        report.violation({"kind": "counterexample", "what": "disable() did not return / the endpoint did not end NOT CONNECTED when its connection attempt succeeded while it was being disabled", **race2_obs}, True, tag="disablerace")
     # the same over real sockets (TcpServerConnection on the loopback interface)
     tcp_obs = []
     st = streams(rnd)[0]
@@ -473,7 +523,7 @@ def run(tier, replay=None):
     twedged = []
     for k, cut in enumerate(cuts):
         how = "peer_close" if k % 2 == 0 else "disable"
-        obs = common.guarded(lambda cut=cut, how=how, k=k: tcp_round(common.free_port(), st, cut, how), f"TCP loopback: stream cut at byte {cut}, ended by {how}", twedged, 60.0)
+        obs = common.guarded(lambda cut=cut, how=how, k=k: tcp_round(common.own_port(k), st, cut, how), f"TCP loopback: stream cut at byte {cut}, ended by {how}", twedged, 60.0)
         if obs is None:
             continue
         tcp_obs.append(obs)
@@ -505,6 +555,7 @@ def run(tier, replay=None):
     cov["pending_sends_rounds"] = pending_obs
     cov["active_reconnect_rounds"] = active_obs
     cov["disable_while_peer_connects"] = race_obs
+    cov["disable_while_connect_succeeds"] = race2_obs
     cov["tcp_rounds"] = {"count": len(tcp_obs), "max_disable_seconds": max([o.get("disable_seconds", 0) for o in tcp_obs] + [o.get("final_disable_seconds", 0) for o in tcp_obs] + [0])}
     cov["distribution"] = {"streams": dict(Counter(c[0] for c in cases)), "ended_by": dict(Counter(c[4] for c in cases)), "selected": dict(Counter(str(c[3]) for c in cases))}
     cov["samples"] = [f"stream {c[0]} cut {c[2]} selected={c[3]} {c[4]}" for c in cases[:: max(1, len(cases) // 6)][:6]]
